@@ -211,6 +211,324 @@ def bucket_dict_design(c: Ctx, u: Unit, fn: ast.AST, self_: str) -> bool:
     return True
 
 
+LAST_ORDER: dict[int, frozenset] = {}  # id(program) -> statuses the evaluated eviction order contains (read by C13.4)
+
+
+class _Quiet:
+    """A rule context that records nothing: lets one rule evaluate another's machinery for its by-product."""
+
+    def __init__(self, c):
+        self._c = c
+
+    def __getattr__(self, k):
+        return getattr(self._c, k)
+
+    def ok(self, *a, **k):
+        pass
+
+    def fail(self, *a, **k):
+        pass
+
+    def floor(self, *a, **k):
+        pass
+
+    def note(self, *a, **k):
+        pass
+
+
+def _check_eviction_order(c: Ctx, u: Unit, order: list, te, sl: ast.AST) -> None:
+    """The checks on an eviction order given as a sequence of tiers: contains every event, completed before started before pending, each run oldest-first."""
+    from .tiers import ALL, RANK, describe
+
+    LAST_ORDER[id(c.prog)] = frozenset().union(*[t.statuses for t in order]) if order else frozenset()
+
+    covered = frozenset().union(*[t.statuses for t in order]) if order else frozenset()
+    if covered == ALL and all(t.exhaustive for t in order):
+        c.ok(where(u, sl), 'the order contains every event of the history')
+    else:
+        c.fail(u, f'eviction order covers {describe(order)}', 'the eviction order does not contain every event of the history: when the events it leaves out fill the history, nothing can be evicted '
+               'and the bound is exceeded', node=sl)
+    seen: set[str] = set()
+    last = -1
+    ok = True
+    for t in order:
+        ranks = sorted({RANK[s_] for s_ in t.statuses})
+        if len(ranks) > 1:
+            c.fail(u, f'one tier mixes {sorted(t.statuses, key=RANK.get)}', f'{" and ".join(sorted(t.statuses, key=RANK.get))} events form one run of the eviction order ({t.why or "not separated by status"}): '
+                   'between them only position decides, so an event of a later class (pending before started before completed are kept longest) is evicted while one of an earlier class remains', node=sl)
+            ok = False
+        if ranks and ranks[0] < last:
+            c.fail(u, f'eviction order is {describe(order)}', 'in-flight (started/pending) events can be evicted while a completed one remains (or pending before started)', node=sl)
+            ok = False
+        if seen & t.statuses:
+            c.fail(u, f'status {sorted(seen & t.statuses)} appears twice in the eviction order', 'an event is counted twice in the eviction order: fewer distinct events than the excess are evicted', node=sl)
+            ok = False
+        seen |= t.statuses
+        last = max(ranks) if ranks else last
+        if not t.sorted:
+            c.fail(u, f'tier {sorted(t.statuses, key=RANK.get)} is not sorted by event_created_at', f'eviction among {"/".join(sorted(t.statuses))} events is not oldest-first', node=sl)
+            ok = False
+    if te.naive_sort is not None:
+        c.fail(u, f'sorted by comparing datetime objects directly ({U(te.naive_sort)[:60]})', 'event_created_at accepts timezone-naive and timezone-aware values (caller-supplied, rehydrated events); comparing one '
+               'with the other raises TypeError inside the cleanup: dispatch() raises after having enqueued the event and the history stays over its bound', node=te.naive_sort)
+        ok = False
+    if ok:
+        c.ok(where(u, sl), 'completed before started before pending, each run oldest-first')
+
+
+def take_loop_design(c: Ctx, u: Unit, fn: ast.AST, self_: str) -> bool:
+    """The bucket design, evaluated rather than matched: a dict of lists keyed by status is filled from the history (every event filed under its own status), the lists are sorted
+    (in place, or when they are taken), and a loop over a literal order of statuses takes from each list a prefix bounded by what is still to remove, into one list of ids that is
+    then deleted from the history.  Taking `T_i[:r]` from each tier in turn, with r reduced by what was taken, removes exactly the first `excess` entries of T_1 + T_2 + ...; so the
+    eviction order is that concatenation, and it is judged like any other (tiers.py).  Returns False when the function is not written this way."""
+    from sa.loops import lin
+
+    from .tiers import ALL, Tier, TierEval, describe
+
+    Hh, M = f'{self_}.event_history', f'{self_}.max_history_size'
+    te = TierEval(c, self_)
+    buckets: dict[str, dict[str, list | None]] = {}
+    scalars: dict[str, ast.AST] = {}
+    removed: str | None = None
+    order: list = []
+    take_nodes: list[ast.AST] = []
+    deleted = False
+    problems: list[tuple[str, str, ast.AST]] = []
+
+    def excess_like(e: ast.AST | None, depth: int = 0) -> bool:
+        """len(history) − max_history_size, possibly under max(0, ..), possibly through locals."""
+        if e is None or depth > 4:
+            return False
+        if isinstance(e, ast.Name) and e.id in scalars:
+            return excess_like(scalars[e.id], depth + 1)
+        if isinstance(e, ast.Call) and isinstance(e.func, ast.Name) and e.func.id == 'max' and len(e.args) == 2:
+            rest = [a for a in e.args if not (isinstance(a, ast.Constant) and a.value == 0)]
+            return len(rest) == 1 and excess_like(rest[0], depth + 1)
+        l = lin(e, {})
+        return l is not None and {k: v for k, v in l.items() if v} == {f'len({Hh})': 1, M: -1}
+
+    def bucket_ref(e: ast.AST, env: dict[str, str]) -> list | None:
+        """`B[<status>]` / `B.get(<status>[, default])` with the status a literal or the loop variable."""
+        key = None
+        if isinstance(e, ast.Subscript) and isinstance(e.value, ast.Name) and e.value.id in buckets:
+            b, key = e.value.id, e.slice
+        elif isinstance(e, ast.Call) and isinstance(e.func, ast.Attribute) and e.func.attr == 'get' and isinstance(e.func.value, ast.Name) and e.func.value.id in buckets and e.args:
+            b, key = e.func.value.id, e.args[0]
+        if key is None:
+            return None
+        k = key.value if isinstance(key, ast.Constant) else env.get(key.id) if isinstance(key, ast.Name) else None
+        return buckets[b].get(k) if k is not None else None
+
+    def list_value(e: ast.AST, env: dict[str, str], local: dict[str, list | None]) -> list | None:
+        if isinstance(e, ast.Name) and e.id in local:
+            return local[e.id]
+        r = bucket_ref(e, env)
+        if r is not None:
+            return r
+        if isinstance(e, ast.Call) and isinstance(e.func, ast.Name) and e.func.id == 'sorted' and e.args:
+            return te.sort(list_value(e.args[0], env, local), e)
+        if isinstance(e, ast.Call) and isinstance(e.func, ast.Name) and e.func.id == 'list' and len(e.args) == 1:
+            return list_value(e.args[0], env, local)
+        return None
+
+    def id_projection(comp: ast.AST) -> ast.AST | None:
+        """`[id for id, _ in X]` / `[e.event_id for e in X]` / `(p[0] for p in X)`: returns X."""
+        if not (isinstance(comp, (ast.ListComp, ast.GeneratorExp)) and len(comp.generators) == 1 and not comp.generators[0].ifs and not comp.generators[0].is_async):
+            return None
+        g_ = comp.generators[0]
+        if isinstance(g_.target, ast.Name) and U(comp.elt) in (f'{g_.target.id}.event_id', f'{g_.target.id}[0]', f'{g_.target.id}[1].event_id'):
+            return g_.iter
+        if isinstance(g_.target, ast.Tuple) and len(g_.target.elts) == 2 and all(isinstance(x, ast.Name) for x in g_.target.elts) and U(comp.elt) in (g_.target.elts[0].id, f'{g_.target.elts[1].id}.event_id'):
+            return g_.iter
+        return None
+
+    for st in fn.body:
+        if isinstance(st, (ast.Assign, ast.AnnAssign)) and st.value is not None:
+            tgt = st.targets[0] if isinstance(st, ast.Assign) else st.target
+            if not isinstance(tgt, ast.Name):
+                continue
+            v = st.value
+            keys = None
+            if isinstance(v, ast.DictComp) and isinstance(v.value, ast.List) and not v.value.elts and len(v.generators) == 1 and isinstance(v.generators[0].iter, (ast.Tuple, ast.List)) \
+                    and all(isinstance(x, ast.Constant) and isinstance(x.value, str) for x in v.generators[0].iter.elts) and U(v.key) == U(v.generators[0].target):
+                keys = [x.value for x in v.generators[0].iter.elts]
+            elif isinstance(v, ast.Dict) and v.keys and all(isinstance(k_, ast.Constant) and isinstance(k_.value, str) for k_ in v.keys) and all(isinstance(x, ast.List) and not x.elts for x in v.values):
+                keys = [k_.value for k_ in v.keys]
+            if keys is not None:
+                buckets[tgt.id] = {k_: None for k_ in keys}
+            elif isinstance(v, ast.List) and not v.elts:
+                removed = removed or tgt.id
+            else:
+                scalars[tgt.id] = v
+                te.env[tgt.id] = te.ev(v)
+        elif isinstance(st, ast.If):
+            # `if not M: R = 0 else: R = max(0, len(H) - M)` (a folded helper): the else value is the excess wherever there is something to remove
+            for b in (st.body, st.orelse):
+                for s2 in b:
+                    if isinstance(s2, ast.Assign) and len(s2.targets) == 1 and isinstance(s2.targets[0], ast.Name) and not (isinstance(s2.value, ast.Constant) and s2.value.value == 0):
+                        scalars[s2.targets[0].id] = s2.value
+        elif isinstance(st, ast.For) and U(st.iter) in (f'{Hh}.items()', f'{Hh}.values()', f'list({Hh}.items())', f'list({Hh}.values())') and buckets:
+            # the fill
+            pair_src = 'items' in U(st.iter)
+            evn = st.target.elts[1].id if pair_src and isinstance(st.target, ast.Tuple) and len(st.target.elts) == 2 and all(isinstance(x, ast.Name) for x in st.target.elts) else (st.target.id if isinstance(st.target, ast.Name) and not pair_src else None)
+            body = [x for x in st.body if not isinstance(x, ast.Pass)]
+            app = body[0].value if len(body) == 1 and isinstance(body[0], ast.Expr) and isinstance(body[0].value, ast.Call) and call_name(body[0].value) == 'append' and isinstance(body[0].value.func, ast.Attribute) else None
+            if evn is None or app is None or len(app.args) != 1:
+                return False
+            recv = app.func.value
+            b = key = None
+            if isinstance(recv, ast.Subscript) and isinstance(recv.value, ast.Name) and recv.value.id in buckets:
+                b, key = recv.value.id, recv.slice
+            elif isinstance(recv, ast.Call) and isinstance(recv.func, ast.Attribute) and recv.func.attr in ('get', 'setdefault') and isinstance(recv.func.value, ast.Name) and recv.func.value.id in buckets and recv.args:
+                b, key = recv.func.value.id, recv.args[0]
+            if b is None or U(key) != f'{evn}.event_status':
+                return False
+            elt = app.args[0]
+            is_pair = isinstance(elt, ast.Tuple) and len(elt.elts) == 2 and U(elt.elts[1]) == evn
+            if not is_pair and U(elt) != evn:
+                return False
+            if set(buckets[b]) != set(ALL):
+                problems.append((f'the status buckets are {sorted(buckets[b])}', 'events of a status that has no bucket are not in the eviction order (or are filed under another status)', st))
+            for k_ in buckets[b]:
+                if k_ in ALL:
+                    buckets[b][k_] = [Tier(frozenset({k_}), False, True, f'the history events whose status is {k_}', is_pair)]
+        elif isinstance(st, ast.For) and isinstance(st.iter, ast.Call) and isinstance(st.iter.func, ast.Attribute) and st.iter.func.attr == 'values' and isinstance(st.iter.func.value, ast.Name) and st.iter.func.value.id in buckets \
+                and isinstance(st.target, ast.Name) and len(st.body) == 1 and isinstance(st.body[0], ast.Expr) and isinstance(st.body[0].value, ast.Call) and call_name(st.body[0].value) == 'sort' \
+                and U(st.body[0].value.func.value) == st.target.id:
+            b = st.iter.func.value.id
+            for k_ in buckets[b]:
+                buckets[b][k_] = te.sort(buckets[b][k_], st.body[0].value)
+        elif isinstance(st, ast.For) and isinstance(st.iter, (ast.Tuple, ast.List)) and st.iter.elts and all(isinstance(x, ast.Constant) and isinstance(x.value, str) for x in st.iter.elts) and isinstance(st.target, ast.Name) and buckets:
+            # the take loop, one pass per status
+            if removed is None:
+                return False
+            running = None  # the counter that holds what is still to remove, when it is carried from pass to pass
+            for status in [x.value for x in st.iter.elts]:
+                env = {st.target.id: status}
+                local: dict[str, list | None] = {}
+                bound_names: set[str] = set()   # names that hold "what is still to remove" in this pass
+                taken: dict[str, tuple[list | None, str]] = {}  # ids local -> (tiers, bound)
+                prefixed: dict[str, str] = {}  # list local that already is a prefix -> its bound
+                committed = None
+                decremented = False
+                stmts = list(st.body)
+                while stmts:
+                    s2 = stmts.pop(0)
+                    if isinstance(s2, ast.If):
+                        tb = [x for x in s2.body if not isinstance(x, ast.Pass)]
+                        if len(tb) == 1 and isinstance(tb[0], (ast.Break, ast.Continue)) and not s2.orelse:
+                            continue  # `if <nothing left>: break`: the remaining passes would take nothing
+                        # `if len(X) > r: X = sorted(X, key=..)[:r]`: a list that goes as a whole need not be sorted — the same events are evicted as with sorted(X)[:r]
+                        t_ = s2.test
+                        if not s2.orelse and len(tb) == 1 and isinstance(tb[0], ast.Assign) and isinstance(tb[0].targets[0], ast.Name) and isinstance(t_, ast.Compare) and len(t_.ops) == 1 \
+                                and isinstance(tb[0].value, ast.Subscript) and isinstance(tb[0].value.slice, ast.Slice) and tb[0].value.slice.lower is None and tb[0].value.slice.step is None and tb[0].value.slice.upper is not None:
+                            X = tb[0].targets[0].id
+                            r_ = U(tb[0].value.slice.upper)
+                            cmp_ok = (isinstance(t_.ops[0], ast.Gt) and U(t_.left) == f'len({X})' and U(t_.comparators[0]) == r_) or (isinstance(t_.ops[0], ast.Lt) and U(t_.comparators[0]) == f'len({X})' and U(t_.left) == r_)
+                            lv = list_value(tb[0].value.value, env, local)
+                            if cmp_ok and lv is not None and X in local:
+                                local[X] = lv
+                                prefixed[X] = r_
+                                continue
+                            return False
+                        if not s2.orelse and not any(isinstance(x, (ast.Break, ast.Continue, ast.Return)) for b2 in s2.body for x in ast.walk(b2)):
+                            stmts = list(s2.body) + stmts  # `if <something left>:` around the pass
+                            continue
+                        return False
+                    if isinstance(s2, (ast.Assign, ast.AnnAssign)) and s2.value is not None:
+                        t2 = s2.targets[0] if isinstance(s2, ast.Assign) else s2.target
+                        if not isinstance(t2, ast.Name):
+                            return False
+                        v2 = s2.value
+                        l2 = lin(v2, {})
+                        if isinstance(v2, ast.BinOp) and isinstance(v2.op, ast.Sub) and U(v2.right) == f'len({removed})' and excess_like(v2.left):
+                            bound_names.add(t2.id)  # excess − len(removed): recomputed in every pass
+                            continue
+                        if isinstance(v2, ast.BinOp) and isinstance(v2.op, ast.Sub) and isinstance(v2.left, ast.Name) and v2.left.id == t2.id and committed is not None and U(v2.right) in (f'len({committed[2]})',):
+                            decremented = True
+                            continue
+                        src = id_projection(v2)
+                        if src is not None and isinstance(src, ast.Name) and src.id in prefixed and src.id in local:
+                            taken[t2.id] = (local[src.id], prefixed[src.id])
+                            continue
+                        if src is not None and isinstance(src, ast.Subscript) and isinstance(src.slice, ast.Slice) and src.slice.lower is None and src.slice.step is None and src.slice.upper is not None:
+                            taken[t2.id] = (list_value(src.value, env, local), U(src.slice.upper))
+                            continue
+                        if isinstance(v2, ast.Subscript) and isinstance(v2.slice, ast.Slice) and v2.slice.lower is None and v2.slice.step is None and v2.slice.upper is not None:
+                            taken[t2.id] = (list_value(v2.value, env, local), U(v2.slice.upper))  # the prefix itself, ids projected later
+                            continue
+                        lv = list_value(v2, env, local)
+                        if lv is not None:
+                            local[t2.id] = lv
+                            continue
+                        if isinstance(v2, ast.Call) and isinstance(v2.func, ast.Name) and v2.func.id == 'min' and len(v2.args) == 2:
+                            # k = min(len(T), r): the same bound as T[:r]
+                            rs = [a for a in v2.args if not (isinstance(a, ast.Call) and isinstance(a.func, ast.Name) and a.func.id == 'len')]
+                            if len(rs) == 1 and isinstance(rs[0], ast.Name):
+                                scalars[t2.id] = rs[0]
+                                bound_names |= {t2.id} if rs[0].id in bound_names or rs[0].id == running or (running is None and excess_like(rs[0])) else set()
+                                if rs[0].id not in bound_names and running is None and excess_like(rs[0]):
+                                    running = rs[0].id
+                                continue
+                        return False
+                    if isinstance(s2, ast.AugAssign) and isinstance(s2.op, ast.Sub) and isinstance(s2.target, ast.Name) and committed is not None:
+                        if U(s2.value) in (f'len({committed[2]})',) or (committed[3] is not None and U(s2.value) == committed[3]):
+                            if s2.target.id != committed[1] and scalars.get(committed[1]) is None:
+                                problems.append((f'`{U(s2)}` reduces {s2.target.id}, the prefix was bounded by {committed[1]}', 'what is still to remove is not reduced by what was just taken', s2))
+                            decremented = True
+                            continue
+                        return False
+                    if isinstance(s2, ast.Expr) and isinstance(s2.value, ast.Call) and call_name(s2.value) == 'extend' and isinstance(s2.value.func, ast.Attribute) and U(s2.value.func.value) == removed and len(s2.value.args) == 1:
+                        a = s2.value.args[0]
+                        tk = None
+                        if isinstance(a, ast.Name) and a.id in taken:
+                            tk = (*taken[a.id], a.id, None)
+                        else:
+                            src = id_projection(a)
+                            if src is not None and isinstance(src, ast.Name) and src.id in taken:
+                                tk = (*taken[src.id], src.id, None)
+                            elif src is not None and isinstance(src, ast.Subscript) and isinstance(src.slice, ast.Slice) and src.slice.lower is None and src.slice.step is None and src.slice.upper is not None:
+                                tk = (list_value(src.value, env, local), U(src.slice.upper), U(src), None)
+                        if tk is None or tk[0] is None or committed is not None:
+                            return False
+                        committed = tk
+                        take_nodes.append(s2)
+                        continue
+                    if isinstance(s2, ast.Expr) and isinstance(s2.value, ast.Call) and U(s2.value.func).startswith('logger.'):
+                        continue
+                    return False
+                if committed is None:
+                    return False
+                tiers_, bound, _nm, _x = committed
+                # the bound: a name that holds what is still to remove at this point
+                if bound in bound_names:
+                    pass  # recomputed in this pass from the excess and what has been removed so far
+                elif running is None and excess_like(ast.Name(id=bound, ctx=ast.Load())) and decremented:
+                    running = bound
+                elif bound == running and decremented:
+                    pass
+                else:
+                    problems.append((f'the prefix taken from the {status} events is bounded by `{bound}`', 'the number taken from a status is not what is still to remove at that point (the excess minus what earlier '
+                                     'statuses gave): more events than the excess are evicted, or fewer', take_nodes[-1]))
+                order.extend(tiers_)
+        elif isinstance(st, ast.For) and removed is not None and U(st.iter) == removed and isinstance(st.target, ast.Name):
+            dl = [x for x in ast.walk(st) if (isinstance(x, ast.Delete) and any(U(t) == f'{Hh}[{st.target.id}]' for t in x.targets))
+                  or (isinstance(x, ast.Call) and call_name(x) == 'pop' and isinstance(x.func, ast.Attribute) and U(x.func.value) == Hh and x.args and U(x.args[0]) == st.target.id)]
+            deleted = deleted or bool(dl)
+    if not order or not take_nodes:
+        return False
+    anchor = take_nodes[0]
+    c.ok(where(u, anchor), f'status buckets taken in a loop, evaluated in the tier algebra: {describe(order)}; each pass takes a prefix bounded by what is still to remove')
+    for what, why, node in problems:
+        c.fail(u, what, why, node=node)
+    if not deleted:
+        c.fail(u, f'the ids collected in `{removed}` are not deleted from event_history', 'nothing is evicted: the history grows without bound', node=anchor)
+    else:
+        c.ok(where(u, anchor), 'the selected ids are deleted from event_history')
+    _check_eviction_order(c, u, order, te, anchor)
+    return True
+
+
 def tier_algebra_design(c: Ctx, u: Unit, fn: ast.AST, self_: str) -> bool:
     """The third design: the eviction order is ONE list built with comprehensions, concatenation and sorting, and the first `excess` ids of it are deleted.  The order is evaluated
     in the tier algebra (rules/tiers.py).  Returns False when the function is not written this way (the order cannot be evaluated)."""
@@ -270,38 +588,7 @@ def tier_algebra_design(c: Ctx, u: Unit, fn: ast.AST, self_: str) -> bool:
     else:
         c.fail(u, f'evicts {U(sl.value)[:40]}[{U(sl.slice)}]', 'the events evicted are not exactly the first len(history) − max_history_size of the eviction order (history stays above its bound, or in-flight events '
                'are evicted needlessly)', node=sl)
-    covered = frozenset().union(*[t.statuses for t in order]) if order else frozenset()
-    if covered == ALL and all(t.exhaustive for t in order):
-        c.ok(where(u, sl), 'the order contains every event of the history')
-    else:
-        c.fail(u, f'eviction order covers {describe(order)}', 'the eviction order does not contain every event of the history: when the events it leaves out fill the history, nothing can be evicted '
-               'and the bound is exceeded', node=sl)
-    seen: set[str] = set()
-    last = -1
-    ok = True
-    for t in order:
-        ranks = sorted({RANK[s_] for s_ in t.statuses})
-        if len(ranks) > 1:
-            c.fail(u, f'one tier mixes {sorted(t.statuses, key=RANK.get)}', f'{" and ".join(sorted(t.statuses, key=RANK.get))} events form one run of the eviction order ({t.why or "not separated by status"}): '
-                   'between them only position decides, so an event of a later class (pending before started before completed are kept longest) is evicted while one of an earlier class remains', node=sl)
-            ok = False
-        if ranks and ranks[0] < last:
-            c.fail(u, f'eviction order is {describe(order)}', 'in-flight (started/pending) events can be evicted while a completed one remains (or pending before started)', node=sl)
-            ok = False
-        if seen & t.statuses:
-            c.fail(u, f'status {sorted(seen & t.statuses)} appears twice in the eviction order', 'an event is counted twice in the eviction order: fewer distinct events than the excess are evicted', node=sl)
-            ok = False
-        seen |= t.statuses
-        last = max(ranks) if ranks else last
-        if not t.sorted:
-            c.fail(u, f'tier {sorted(t.statuses, key=RANK.get)} is not sorted by event_created_at', f'eviction among {"/".join(sorted(t.statuses))} events is not oldest-first', node=sl)
-            ok = False
-    if te.naive_sort is not None:
-        c.fail(u, f'sorted by comparing datetime objects directly ({U(te.naive_sort)[:60]})', 'event_created_at accepts timezone-naive and timezone-aware values (caller-supplied, rehydrated events); comparing one '
-               'with the other raises TypeError inside the cleanup: dispatch() raises after having enqueued the event and the history stays over its bound', node=te.naive_sort)
-        ok = False
-    if ok:
-        c.ok(where(u, sl), 'completed before started before pending, each run oldest-first')
+    _check_eviction_order(c, u, order, te, sl)
     c.ok(where(u, sites[0]), 'the selected ids are deleted from event_history')
     return True
 
@@ -363,6 +650,8 @@ def c13_2(c: Ctx) -> None:
                    'events are evicted while completed ones remain', node=n)
             return
     _check_single_victim_fast_paths(c, u, fn, self_)
+    if take_loop_design(c, u, u.node, self_):
+        return
     if bucket_dict_design(c, u, fn, self_):
         return
     if not cls_loop and tier_algebra_design(c, u, fn, self_):
@@ -536,6 +825,16 @@ def c13_4(c: Ctx) -> None:
         evictable = [U(x.func.value) for n in own_nodes(cu.node) if isinstance(n, ast.If) and ("'started'" in U(n.test) or "'pending'" in U(n.test)) for b in n.body for x in ast.walk(b) if isinstance(x, ast.Call) and call_name(x) == 'append']
         used = {x.id for n in own_nodes(cu.node) if isinstance(n, ast.Call) and call_name(n) == 'extend' for x in ast.walk(n) if isinstance(x, ast.Name)}
         evictable = [e for e in evictable if e in used]
+    if not evictable:
+        # the eviction is written some other way: ask the evaluators of C13.2 which statuses the eviction order contains
+        LAST_ORDER.pop(id(c.prog), None)
+        qc = _Quiet(c)
+        try:
+            if not take_loop_design(qc, cu, cu.node, cu.params()[0]):
+                tier_algebra_design(qc, cu, q.unrolled_view(cu.node), cu.params()[0])
+        except Exception:
+            pass
+        evictable = sorted(LAST_ORDER.get(id(c.prog), frozenset()) & {'started', 'pending'})
     if evictable:
         c.fail('EventBus.process_event × EventBus.cleanup_event_history', 'ancestor lookup reads event_history; cleanup deletes started/pending entries',
                'an in-flight parent evicted from the history (its fire-and-forget children outnumber max_history_size) can never be found by the upward propagation: it never completes and awaiting it hangs',
